@@ -203,7 +203,7 @@ type c17W interface {
 	setKV(k, v string)
 }
 
-type c17Typed struct{ w gen.TypedWriter }
+type c17Typed struct{ w gen.StatefulWriter }
 
 func (t c17Typed) write(rows reflect.Value, lo, hi int) error {
 	if lo >= hi {
